@@ -2,7 +2,7 @@
    Statements only; kernels of Gen.GuardedKernels / Gen.FixedKernels are regenerated from /repo. *)
 From Coq Require Import ZArith QArith List Bool.
 From Droop Require Import Model.KernelBase Model.Arith Gen.FixedKernels Gen.GuardedKernels
-  Proofs.ArithLemmas Proofs.GuardedLemmas Proofs.C13Proofs.
+  Model.Prims Model.Election Proofs.ArithLemmas Proofs.GuardedLemmas Proofs.C13Proofs Proofs.ArithEq Proofs.CountEq.
 Import ListNotations.
 Open Scope Z_scope.
 
@@ -71,6 +71,20 @@ Theorem C13_guard0_min : forall p d s l, l <> [] ->
   GuardedKernels.min (mk_guarded_cls p 0 d s) l = FixedKernels.min (mk_fixed_cls p d) l.
 Proof. exact g0_min. Qed.
 Print Assumptions C13_guard0_min.
+
+(* (b) ... and in every count: with guard = 0 the Guarded instance the count model runs on IS the Fixed
+   instance of the same precision (records of functions compared with functional extensionality), so
+   every count -- any rule, profile, options, fuel -- yields the identical trace: same actions, statuses,
+   raw and printed tallies, ballot weights, outcome.  (precision >= 1: Fixed with precision 0 is 'integer'
+   arithmetic, which prints without a decimal point; reading note in DESIGN.md, C13.) *)
+Theorem C13_guard0_instance : forall p d s, 1 <= p -> 0 <= d -> Guarded p 0 d s = Fixed p d.
+Proof. exact guard0_is_fixed. Qed.
+Print Assumptions C13_guard0_instance.
+
+Theorem C13_guard0_every_count : forall p d s cfg fuel r pr, 1 <= p -> 0 <= d ->
+  trace (Guarded p 0 d s) cfg fuel r pr = trace (Fixed p d) cfg fuel r pr.
+Proof. exact trace_guard0. Qed.
+Print Assumptions C13_guard0_every_count.
 
 (* (c), proved part: with guard > 0 every multiplicative operation is the exact result rounded
    toward minus infinity at p+g places (at most one unit below, never above), whatever [round] says *)
